@@ -71,6 +71,13 @@ static unsigned long argval(const char *s) {
     if (!strncmp(s, "s:", 2)) return (unsigned long)(s + 2);
     if (!strcmp(s, "bad")) return 0x10;
     if (!strcmp(s, "kern")) return 0xffff800000000000UL;
+    if (!strncmp(s, "how:", 4)) { /* struct open_how {flags, mode, resolve} */
+        static unsigned long long hows[16][3]; static int nh;
+        unsigned long long *h = hows[nh++ % 16];
+        h[0] = strtoull(s + 4, NULL, 0); h[1] = 0; h[2] = 0;
+        if (h[0] & 0100) h[1] = 0644;
+        return (unsigned long)h;
+    }
     if (!strcmp(s, "fdcwd32")) return 0x00000000ffffff9cUL;
     if (!strcmp(s, "fdcwd64")) return 0xffffffffffffff9cUL;
     if (!strncmp(s, "nonul:", 6)) {
